@@ -7,12 +7,13 @@ trials = {}
 for l in open('/verif/work/seeded_results.jsonl'):
     r = json.loads(l)
     trials.setdefault(re.sub(r'-retest\d*$', '', r['name']), []).append(r)
+    r['_retest'] = bool(re.search(r'-retest\d*$', r['name']))
 for d in sorted(glob.glob('/verif/seeded/C*-[AB]') + glob.glob('/verif/seeded/R2C*-[AB]')):
     m = json.load(open(d + '/meta.json'))
     name = os.path.basename(d)
     det = m.get('detected_by', [])
     ts = trials.get(name, [])
-    first_caught = bool(ts) and any(x['exit'] == 1 for x in ts[0]['results'].values())
+    first_caught = any(x['exit'] == 1 for t in ts if not t['_retest'] for x in t['results'].values())
     d_txt = '; '.join(f"{x['property']}: {', '.join(sorted(set(x['labels']))[:3])}" for x in det) or '**not detected**'
     if det and first_caught:
         own = name.replace('R2', '').split('-')[0]
